@@ -15,6 +15,8 @@ func checkC17(p *Prog, r *Report) {
 	dispatcherRule(p, r, "C17.R5")
 	c17LineCounter(p, r)
 	c17Output(p, r)
+	c17Separators(p, r)
+	c17CalcArgs(p, r)
 }
 
 type rangePrint struct {
@@ -115,6 +117,10 @@ func c17List(p *Prog, r *Report) {
 	r.Rule("C17.R3", "ranges are contiguous, disjoint and cover 1..lines: each range starts at the previous end + 1, the cursor starts at 0, the first (lines mod nodes) ranges hold (lines div nodes)+1 lines and the others (lines div nodes), with div and mod taken of the same two operands", 4)
 	// lines<nodes arm: singletons (i, i)
 	for _, rp := range arms[1] {
+		if rp.L.Var == nil {
+			r.Ob("singleton", p.Pos(rp.e.Pos), false, "the loop that prints one range per line is not a counted loop (no induction variable recognised)")
+			continue
+		}
 		v := PAtom(rp.L.Var)
 		r.Ob("singleton", p.Pos(rp.e.Pos), rp.L.Var != nil && rp.a.Equal(v) && rp.b.Equal(v) && rp.L.Lo.Equal(PInt(1)), fmt.Sprintf("range %s-%s per iteration of %s starting at %s (must be i-i from 1)", rp.a, rp.b, polyOr(v), polyOr(rp.L.Lo)))
 	}
